@@ -72,7 +72,7 @@ func Match(patterns []string, mode Mode, s string) (string, error) {
 		for mode&Smallest != 0 && mode&Suffix != 0 {
 			s = s[len(s)-len(m[0]):]
 			r, w := utf8.DecodeRuneInString(s)
-			if r == utf8.RuneError {
+			if r == utf8.RuneError && w <= 1 {
 				if w == 0 {
 					break
 				} else {
@@ -301,6 +301,10 @@ func compile(patterns []string, mode Mode) (*regexp.Regexp, error) {
 						r, w = utf8.DecodeRuneInString(pat)
 						switch r {
 						case utf8.RuneError:
+							if w > 1 {
+								// U+FFFD itself, an ordinary character
+								break
+							}
 							b.WriteByte('\\')
 							if w == 0 {
 								break Pattern
@@ -321,6 +325,10 @@ func compile(patterns []string, mode Mode) (*regexp.Regexp, error) {
 				r, w = utf8.DecodeRuneInString(pat)
 				switch r {
 				case utf8.RuneError:
+					if w > 1 {
+						// U+FFFD itself, an ordinary character
+						break
+					}
 					b.WriteByte('\\')
 					if w == 0 {
 						break Pattern
